@@ -331,7 +331,7 @@ func cmdCheck(prop, tier string) int {
 			probeEvals++
 			if r.Status == "violation" {
 				if k := matchKnown(known, r); k != nil {
-					line := fmt.Sprintf("KNOWN-FINDING: property=%s %s [class=%s features=%s]", prop, k.What, r.Class, strings.Join(k.Features, ","))
+					line := knownLine(prop, k)
 					knownLines = appendUnique(knownLines, line)
 				} else {
 					// a probe that fails differently from its listed finding is a new violation
@@ -373,8 +373,7 @@ func cmdCheck(prop, tier string) int {
 	unknown := 0
 	for _, v := range viols {
 		if k := matchKnown(known, v.result); k != nil {
-			line := fmt.Sprintf("KNOWN-FINDING: property=%s %s [class=%s]", prop, k.What, v.result.Class)
-			knownLines = appendUnique(knownLines, line)
+			knownLines = appendUnique(knownLines, knownLine(prop, k))
 			ev.knownHits++
 			continue
 		}
@@ -396,7 +395,7 @@ func cmdCheck(prop, tier string) int {
 			// minimisation showed it to be a listed finding after all
 			if final != nil {
 				if k := matchKnown(known, final); k != nil {
-					knownLines = appendUnique(knownLines, fmt.Sprintf("KNOWN-FINDING: property=%s %s [class=%s]", prop, k.What, final.Class))
+					knownLines = appendUnique(knownLines, knownLine(prop, k))
 					ev.knownHits++
 					unknown--
 					continue
@@ -426,6 +425,14 @@ func cmdCheck(prop, tier string) int {
 	fmt.Printf("%s: %d runs (indices 0..%d), %d violations not listed as known findings, %d distinct new classes, %.1fs\n",
 		prop, ev.evaluations, covered, unknown, len(newClasses), time.Since(t0).Seconds())
 	return exit
+}
+
+func knownLine(prop string, k *Known) string {
+	id := k.Class
+	if len(k.Features) > 0 {
+		id += " features=" + strings.Join(k.Features, ",")
+	}
+	return fmt.Sprintf("KNOWN-FINDING: property=%s [%s] %s", prop, strings.TrimSpace(id), k.What)
 }
 
 func appendUnique(xs []string, s string) []string {
@@ -472,7 +479,7 @@ func reportViolation(sc *scratch, b *batch, v *indexed) (string, *Result, error)
 		return "", nil, fmt.Errorf("minimised case of run %d (class %s) did not reproduce when replayed (got %s %s): a source of nondeterminism escaped the simulator",
 			v.index, class, rr.Status, rr.Class)
 	}
-	dir := filepath.Join(verifDir(), "replays")
+	dir := replayDir()
 	os.MkdirAll(dir, 0o755)
 	path := filepath.Join(dir, fmt.Sprintf("%s-%d-%d.json", b.prop, b.base, v.index))
 	doc := map[string]interface{}{
@@ -487,7 +494,7 @@ func reportViolation(sc *scratch, b *batch, v *indexed) (string, *Result, error)
 }
 
 func writeReplayStub(b *batch, v *indexed) (string, *Result, error) {
-	dir := filepath.Join(verifDir(), "replays")
+	dir := replayDir()
 	os.MkdirAll(dir, 0o755)
 	path := filepath.Join(dir, fmt.Sprintf("%s-%d-%d.json", b.prop, b.base, v.index))
 	doc := map[string]interface{}{
